@@ -613,8 +613,14 @@ def find_closures(src, lo, hi):
                     b2 = k + 1
                     while toks[b2].text != "|":
                         b2 = src.pairs[b2] + 1 if toks[b2].text in ("(", "[") else b2 + 1
-                # body
+                # body (after an optional explicit return type `-> T`)
                 s = b2 + 1
+                ret = None
+                if toks[s].text == "->":
+                    r0 = s
+                    while toks[s].text != "{":
+                        s = src.pairs[s] + 1 if toks[s].text in ("(", "[") else s + 1
+                    ret = (r0, s)
                 if toks[s].text == "{":
                     e = src.pairs[s] + 1
                 else:
@@ -627,7 +633,7 @@ def find_closures(src, lo, hi):
                         if tx.kind == "punct" and tx.text in (",", ")", ";", "]", "}"):
                             break
                         e += 1
-                out.append({"bar1": k, "bar2": b2, "body_lo": s, "body_hi": e})
+                out.append({"bar1": k, "bar2": b2, "body_lo": s, "body_hi": e, "ret": ret})
                 k = b2 + 1
                 continue
         k += 1
